@@ -95,4 +95,17 @@ theorem initialValues_spec : ∀ (modes : List ModeDef) (acc : Values), (modes.m
       simp only [List.foldl_cons]
       rw [h2 n hn.2, lookup_set_other hn.1]
 
+/-- in a list of modes that all have values, `AvailableValues` is empty exactly for a name that is not a mode -/
+theorem availableValues_nil_iff (modes : List ModeDef) (hne : ∀ md ∈ modes, md.values ≠ []) (n : String) :
+    availableValues modes n = [] ↔ n ∉ modes.map (·.name) := by
+  induction modes with
+  | nil => simp [availableValues]
+  | cons md rest ih =>
+    have ih := ih (fun x hx => hne x (List.mem_cons_of_mem _ hx))
+    unfold availableValues
+    by_cases h : md.name = n
+    · simp [h, hne md (List.mem_cons_self ..)]
+    · have h' : ¬ n = md.name := fun e => h e.symm
+      simp [h, h', ih]
+
 end ScVerif.C20.Mode
